@@ -89,6 +89,11 @@ func runE6(t *testing.T, prof e6Profile) {
 	defer st.Flush()
 	rapid.Check(t, func(t *rapid.T) {
 		p := genPlan(t, prof.tune)
+		// kept on disk so that a case that takes the whole process down (a panic on a
+		// goroutine of the code under test) can still be diagnosed and replayed
+		if data, err := json.MarshalIndent(p, "", " "); err == nil {
+			_ = os.WriteFile("artefact-current-plan.json", data, 0o644)
+		}
 		res := RunPlan(p)
 		res.CheckLinearizable()
 		res.CheckStreams()
@@ -188,6 +193,13 @@ func TestVF_C04_Cluster(t *testing.T) {
 				Fault{Kind: FRestart, AfterMs: 20 + vfhelp.PickN(t, "rsafter", 60)})
 			if vfhelp.Pick(t, "pcall", 1) == 1 {
 				p.Faults = append(p.Faults, Fault{Kind: FPowerCutAll, AfterMs: 10 + vfhelp.PickN(t, "pcallafter", 40)})
+			}
+			// a power cut exactly before / after the k-th save of one host: the window
+			// between "made durable" and "sent"
+			if vfhelp.Pick(t, "trig", 1) == 1 {
+				p.TrigEvent = []string{"before-save", "after-save"}[vfhelp.Pick(t, "trigev", 1)]
+				p.TrigHost = vfhelp.Pick(t, "trighost", 2)
+				p.TrigK = 1 + vfhelp.PickN(t, "trigk", 40)
 			}
 		},
 		rule: "non-trivial = >= 1 power cut (unsynced data dropped) followed by a restart, with a save delay widening the send-before-save window",
